@@ -271,9 +271,9 @@ def check_sim(case) -> Result:
 
 # ---------------------------------------------------------------------------------------
 @st.composite
-def s_base(draw, max_len=5):
+def s_base(draw, max_len=5, locking=False):
     case = {'motor': draw(G.s_motor(currents=True)),
-            'chain': draw(G.s_chain(max_len=max_len, worm=draw(st.sampled_from(['maybe', 'yes', 'no'])), locking=False))}
+            'chain': draw(G.s_chain(max_len=max_len, worm=draw(st.sampled_from(['maybe', 'yes', 'no'])), locking=locking))}
     mdl = M.Model(case)
     case['load'] = G.s_load(draw, mdl, kinds=('const', 'speed'))
     case['init'] = G.s_init(draw, mdl, at_rest=True)
